@@ -90,6 +90,8 @@ def pt_ops(types):
                     continue
                 ops.append(['setlist', l1, l2, [3]])
     ops.append(['setlist_str', types[0], types, [4]])     # a single str key next to a list key
+    if isinstance(types[-1], str):
+        ops.append(['set_npstr', types[-1], types[0], [5]])   # keys spelled as numpy strings (e.g. from np.unique(labels))
     ops.append(['setUnset', [9]])
     ops.append(['apply'])
     for a in types:
@@ -116,6 +118,12 @@ def pt_step(T, model, types, op):
         val = wrap(op[3])
         T[op[1], op[2]] = val
         val[0].append('x')                   # the caller keeps mutating its own object (payload and container)
+        val.append('xo')
+        model[ukey(types, op[1], op[2])] = tuple(op[3])
+    elif kind == 'set_npstr':
+        val = wrap(op[3])
+        T[np.str_(op[1]), np.str_(op[2])] = val
+        val[0].append('x')
         val.append('xo')
         model[ukey(types, op[1], op[2])] = tuple(op[3])
     elif kind in ('setlist', 'setlist_str'):
@@ -310,6 +318,8 @@ def vt_ops(types):
     ops.append(['setUnset', 0.0])
     ops.append(['setarr', types[0]])                      # an array is a legal value (its truth value / == None are not scalars)
     ops.append(['setarr', types[-1]])
+    if isinstance(types[-1], str):
+        ops.append(['set_npstr', types[-1], 7])
     return ops
 
 
@@ -343,6 +353,9 @@ def vt_step(T, model, types, op):
         for k in model:
             if model[k] is None:
                 model[k] = op[1]
+    elif op[0] == 'set_npstr':
+        T[np.str_(op[1])] = op[2]
+        model[types.index(op[1])] = op[2]
     elif op[0] == 'setarr':
         T[op[1]] = np.array(ARRVAL)
         model[types.index(op[1])] = ARR
